@@ -9,51 +9,98 @@ from pgverif.gen import spaces as S
 from pgverif.monitors import genoref as G
 
 TIERS = {
-    'quick': dict(shards=8, max_dnas=30, random=14, random_max=150,
-                  members=6, corrupt=3, draws=8, timeout_s=600),
-    'thorough': dict(shards=16, max_dnas=400, random=120, random_max=1500,
-                     members=12, corrupt=5, draws=20, timeout_s=3000,
+    # max_dnas: exhaustive bound on the members of a description; random:
+    # larger random descriptions per shard, iterated in full up to random_max
+    # members, else on a prefix; members: reference members through DNA() /
+    # validate / binding / from_numbers; corrupt: members corrupted, with one
+    # corruption of each of <= corrupt_kinds (name, kind) classes; draws:
+    # random_dna draws; sweep_full: Sweeping compared to its end up to this size.
+    'quick': dict(shards=8, max_dnas=6, random=5, random_max=40, prefix=16,
+                  members=2, corrupt=1, corrupt_kinds=6, flat_kinds=3,
+                  draws=2, gen_draws=1, next_picks=1, first_iter=1,
+                  sweep_full=6, sweep_prefix=3, validate_iterated=16,
+                  timeout_s=600),
+    'thorough': dict(shards=16, max_dnas=100, random=12, random_max=200,
+                     prefix=30, members=4, corrupt=1, corrupt_kinds=None,
+                     flat_kinds=None, draws=6, gen_draws=2, next_picks=2,
+                     first_iter=3, sweep_full=30, sweep_prefix=6,
+                     validate_iterated=30, timeout_s=3000,
                      case_timeout_s=300),
 }
 EXHAUSTIVE = {'quick': True, 'thorough': True}
-RULE = ('case = one search-space description. Exhaustive part: EVERY description '
-        'of the bounded family of gen/spaces.exhaustive() (spaces of <= 2 '
-        'elements, choices of k <= 3 picks of n <= 4 constant candidates in all '
-        'four distinct/sorted modes; conditional choices k <= 3, n <= 3 with '
-        'every assignment of 6 representative sub-spaces, nesting depth <= 2) '
-        'whose reference size is <= max_dnas, partitioned over the shards by '
-        'index; followed by `random` seeded larger descriptions per shard '
-        '(floats, custom points, depth <= 3). For each: full iteration vs the '
-        'reference enumeration (set, order, count, strict increase, end), '
-        'space_size, next_dna from rebuilt DNAs, Sweeping, validate / binding / '
-        'from_numbers on members and on one-step corruptions, random_dna '
-        'membership. Non-trivial = at least 2 members and a multi-choice or a '
-        'conditional sub-space; distinct by description.')
+RULE = ('case = one search-space description. Exhaustive part (same for every '
+        'seed): EVERY description of the bounded family of gen/spaces.exhaustive() '
+        '(spaces of <= 2 elements, choices of k <= 3 picks of n <= 4 constant '
+        'candidates in all four distinct/sorted modes; conditional choices k <= 3, '
+        'n <= 3 with every assignment of 6 representative sub-spaces, nesting '
+        'depth <= 2) whose reference size is <= max_dnas (quick 6, thorough 100), '
+        'plus all 30 single flat choices whatever their size (<= 64 members), plus '
+        '12 fixed descriptions with float / custom leaves; partitioned over the '
+        'shards by index; followed by `random` seeded larger descriptions per '
+        'shard (floats, custom points, depth <= 3). For each: full iteration vs '
+        'the reference enumeration (set, order, count, strict increase, end), '
+        'space_size, next_dna from rebuilt DNAs, first_dna + DNA.iter_dna, '
+        'Sweeping, shape + validate of iterated DNAs, DNA() / validate / binding / '
+        'from_numbers on reference members and on one-step corruptions (one per '
+        'class of corruption and kind of decision point), random_dna membership. '
+        'Non-trivial = at least 2 members and a multi-choice or a conditional '
+        'sub-space; distinct by description.')
 REQUIRED_COUNTERS = ['iter_full', 'size_checks', 'lt_checks', 'next_checks',
                      'member_validate', 'member_bind', 'nonmember_validate',
-                     'nonmember_bind', 'random_dna_checks', 'sweeping_checks']
+                     'nonmember_bind', 'random_dna_checks', 'sweeping_checks',
+                     'sweeping_full']
 ASSUMPTIONS = [
     'the reference enumerates depth first in decision order; membership = arity, index range, distinct, sorted, conditional sub-space, float range, str genome',
-    'a DNA-shaped input is judged on the (value, children) shape that pg.DNA reports after construction, so inputs that normalise to a member count as members',
+    'a DNA-shaped input is judged on the (value, children) shape that pg.DNA reports after construction, so inputs that normalise to a member count as members; corrupted trees that normalise to another non-member are keyed reshaped:tree',
     'rejection = any exception from validate/binding; acceptance = normal return',
     'NaN floats and bool indices are not generated (left open by the property)',
-    'specs larger than random_max members are iterated on a prefix only',
+    'random specs larger than random_max members are iterated on a prefix only; Sweeping is followed to its end for spaces of <= sweep_full members, else on its first sweep_prefix proposals',
+    'quick tries <= corrupt_kinds classes of corruption per description (all classes on the leaf family), thorough all of them',
 ]
 
 _FAMILY = {}
 
 
+def is_flat_single(desc):
+  return len(desc['elems']) == 1 and not any(
+      c['elems'] for c in desc['elems'][0]['cands'])
+
+
+def leaf_family():
+  """Fixed descriptions with float / custom leaves at the root, next to a
+  choice, below a single choice and below a multi-choice."""
+  out = []
+  for leaf in (lambda: S.floatv(-1.0, 1.5), S.custom):
+    one2 = S.choice(1, S.consts(2))
+    out += [
+        S.space(leaf()),
+        S.space(leaf(), one2),
+        S.space(S.choice(2, S.consts(3), True, True), leaf()),
+        S.space(S.choice(1, [S.CONST, S.space(leaf())])),
+        S.space(S.choice(1, [S.space(leaf(), one2), S.CONST])),
+        S.space(S.choice(2, [S.CONST, S.space(leaf())], False, False)),
+    ]
+  return [S.relocate(d) for d in out]
+
+
 def family(ctx):
+  """Every description of gen/spaces.exhaustive() with <= max_dnas members,
+  plus every single flat choice (k <= 3, n <= 4, all modes) of any size, plus
+  the fixed leaf family."""
   key = ctx.params['max_dnas']
   if key not in _FAMILY:
-    _FAMILY[key] = S.exhaustive(key)
+    sized = [(d, G.size(d)) for d in S.exhaustive(10 ** 9)]
+    fam = [d for d, n in sized if n <= key]          # == S.exhaustive(key)
+    fam += [d for d, n in sized if n > key and is_flat_single(d)]
+    fam += leaf_family()
+    _FAMILY[key] = fam
   return _FAMILY[key]
 
 
 def setup(ctx):
   fam = family(ctx)
   ctx.notes['family_size'] = len(fam)
-  ctx.notes['family_members'] = sum(G.size(d) for d in fam)
+  ctx.notes['family_members'] = sum(G.size(d) or 0 for d in fam)
 
 
 def my_part(ctx):
@@ -61,7 +108,9 @@ def my_part(ctx):
 
 
 def cases(ctx):
-  return len(my_part(ctx)) + int(ctx.params['random'])
+  n = len(my_part(ctx)) + int(ctx.params['random'])
+  cap = ctx.params.get('cases')          # development only (PGVERIF_P_cases)
+  return min(n, int(cap)) if cap else n
 
 
 # --------------------------------------------------------------------------
@@ -307,7 +356,7 @@ def check_members(ctx, desc, spec, members, case):
                     f'from_numbers({list(m)!r}) rejected: {e!r:.300}', case)
 
 
-def check_nonmembers(ctx, rng, desc, spec, members, case):
+def check_nonmembers(ctx, rng, desc, spec, members, case, all_kinds=False):
   """validate / binding / from_numbers must reject one-step corruptions.
 
   Per member one corruption of every (name, kind) is tried.  A corrupted tree
@@ -315,11 +364,16 @@ def check_nonmembers(ctx, rng, desc, spec, members, case):
   reports and keyed `reshaped:tree` (it is no longer the corruption applied).
   """
   c = ctx.counters
+  max_kinds = (not all_kinds and ctx.params.get('corrupt_kinds')) or 10 ** 9
+  max_flat = (not all_kinds and ctx.params.get('flat_kinds')) or 10 ** 9
   for m in members:
     seen_kinds = set()
+    tried = 0
     for name, knd, t in corruptions(rng, desc, m):
       if (name, knd) in seen_kinds:
         continue
+      if tried >= max_kinds:
+        break
       try:
         d = make_dna(t)
       except Exception:  # pylint: disable=broad-except
@@ -331,6 +385,7 @@ def check_nonmembers(ctx, rng, desc, spec, members, case):
         c['corruption_is_member'] += 1
         continue
       seen_kinds.add((name, knd))
+      tried += 1
       key = (name, knd)
       if shape != t:
         c['corruption_reshaped'] += 1
@@ -353,6 +408,8 @@ def check_nonmembers(ctx, rng, desc, spec, members, case):
     for name, flat in flat_corruptions(rng, desc, m):
       if name in seen or G.is_member(desc, flat):
         continue
+      if len(seen) >= max_flat:
+        break
       seen.add(name)
       ok, _ = accepts(lambda: pg.DNA.from_numbers(flat, spec))
       c['nonmember_from_numbers'] += 1
@@ -398,10 +455,10 @@ def check_random(ctx, rng, desc, spec, case):
                       f'{d!r}: {why}', case)
 
 
-def check_finite(ctx, rng, desc, spec, size, case):
+def check_finite(ctx, rng, desc, spec, size, case, exhaustive=False):
   """Iteration, size, order, end, next_dna, Sweeping for a finite space."""
   c = ctx.counters
-  full = size <= ctx.params['random_max']
+  full = exhaustive or size <= ctx.params['random_max']
   limit = size if full else ctx.params.get('prefix', 60)
   ref = []
   for m in G.enumerate_flat(desc):
@@ -550,7 +607,8 @@ def run_case(ctx, i):
   members = dnas = None
   if size is not None:
     c['finite_specs'] += 1
-    members, dnas = check_finite(ctx, rng, desc, spec, size, case)
+    members, dnas = check_finite(ctx, rng, desc, spec, size, case,
+                                 exhaustive=i < len(part))
   else:
     c['infinite_specs'] += 1
     sz = lib_call(ctx, 'space_size', lambda: spec.space_size, case)
@@ -581,7 +639,8 @@ def run_case(ctx, i):
     sample = [G.random_member(desc, rng) for _ in range(nm)]
   check_members(ctx, desc, spec, sample, case)
   check_nonmembers(ctx, rng, desc, spec,
-                   [rng.choice(sample) for _ in range(ctx.params['corrupt'])], case)
+                   [rng.choice(sample) for _ in range(ctx.params['corrupt'])], case,
+                   all_kinds=size is None and i < len(part))
   check_random(ctx, rng, desc, spec, case)
   if (size is None or size >= 2) and (
       any(e['t'] == 'choice' and (e['k'] > 1 or any(cd['elems'] for cd in e['cands']))
